@@ -74,7 +74,9 @@ def _concrete(name, model):
     def _boom(x):
         raise ZeroDivisionError("printer raises")
     hr.hy_repr_register(_Raiser, _boom)
-    raising = [[hm.Symbol("before"), _Raiser()], hm.Expression([hm.Symbol("g"), [_Raiser()]]), {"k": [_Raiser()]}]
+    raising = [[hm.Symbol("before"), _Raiser()], hm.Expression([hm.Symbol("g"), [_Raiser()]]), {"k": [_Raiser()]},
+               # the failing printer is reached *through a model* (the frame that switched quoting on is on the stack)
+               hm.List([hm.Symbol("a"), _Raiser()]), hm.Expression([hm.Symbol("f"), hm.List([_Raiser()])]), [1, hm.Tuple([_Raiser()])]]
     for v in _model_cycles() + [[hm.Symbol("x")], hm.Expression([hm.Symbol("g")])] + raising:
         hr._seen.clear()
         hr._quoting = False
@@ -128,9 +130,11 @@ def histories(chk):
             explode = rng.random() < 0.4
             if explode:
                 v = [hm.Symbol("before"), Box(v, True)]
+                if rng.random() < 0.5:
+                    v = hm.Expression([hm.Symbol("q"), hm.List(v)])       # ... underneath a model
             try:
                 hy.repr(v)
-            except Boom:
+            except Exception:  # noqa: BLE001  (Boom, or whatever the code under verification turns it into: an observation, not a crash)
                 pass
             chk.case(("hist", k))
             j = rng.randrange(len(base))
